@@ -20,7 +20,7 @@ run_demo() {
   elif [ -f $SD/demo.sh ]; then
     (cd $WT && go build -o $WT/.borno-bin . ) || return 99
     rm -rf $WT/.demo && mkdir $WT/.demo && cp $SD/* $WT/.demo/ 2>/dev/null
-    sed -e "s#/tmp/wt-C[0-9]*#$WT#g" -e "s#/tmp/seed[234567]\?-C[0-9]*/borno-bin#$WT/.borno-bin#g" $SD/demo.sh > $WT/.demo/demo.sh
+    sed -e "s#/tmp/wt-C[0-9]*#$WT#g" -e "s#/tmp/seed[2345678]\?-C[0-9]*/borno-bin#$WT/.borno-bin#g" $SD/demo.sh > $WT/.demo/demo.sh
     (cd $WT/.demo && timeout 120 bash $WT/.demo/demo.sh > $WT/.demo.out 2>&1); return $?
   fi
   return 98
